@@ -40,7 +40,7 @@ from prompt_toolkit.utils import get_cwidth
 
 ID = "C06"
 DRIVER = "drv_c06"
-PROPS = ["Ptk.Props.C06"]
+PROPS = ["Ptk.Props.C06", "Ptk.Props.C06Scroll", "Ptk.Props.C06Diff", "Ptk.Props.C06Lemmas"]
 LEVEL_TEXT = ("Lean 4 theorems over an executable model of the screen differ (_output_screen_diff with "
               "move_cursor / output_char / get_max_column_index, Renderer render/erase/reset/clear state) "
               "and of a VT100 terminal: for width-1 cells, executing the differ's output on a terminal that "
@@ -59,7 +59,7 @@ RULE = ("exhaustive: every pair (thorough: triple) of screens over 3 cell kinds 
 EXHAUSTIVE = True
 EXHAUSTIVE_SCOPE = {"quick": "(W,H) in {(1,1),(2,1),(3,1),(1,2),(2,2)}, 3 cell kinds, all ordered pairs of screens, "
                              "inline + full-screen",
-                    "thorough": "same sizes plus (3,2) pairs, and all ordered triples for (1,1),(2,1),(3,1),(1,2)"}
+                    "thorough": "same pairs, all ordered triples for (1,1),(2,1),(3,1),(1,2), 12000 sampled pairs for (3,2)"}
 TRUSTED = ["harness/c06.py: recording Output, VT100 interpreter (CR LF BS CUU/CUD/CUF/CUB CUP ED EL SGR DECTCEM "
            "DECAWM, xterm wide-char overwrite rule), comparison code",
            "Ptk/Model/C06.lean: hand translation of renderer.py _output_screen_diff / Renderer state "
@@ -732,7 +732,114 @@ def run_case(case, tee):
     return res
 
 
+# ------------------------------------------------------------------ screens from real layouts
+_LAYOUT_CACHE: dict[str, dict] = {}
+LAYOUT_KEYS = ["a", "l", "p", "b", " ", "世", "é", "\x01", "\x05", "\x02", "\x06", "\x7f", "\x0b", "\x19", "\t",
+               "\x1b[A", "\x1b[B", "\x1b[D", "\x1b[C", "\x16\x01", "\x1b\r", "x", "\x17"]
+
+
+def layout_to_rend(case):
+    """run a real PromptSession (real layout, real Renderer) on the case's keys, capture every Screen handed to
+    the differ, and return the equivalent explicit `rend` case (screens + interned styles)"""
+    import json as _json
+    key = _json.dumps(case, sort_keys=True)
+    if key in _LAYOUT_CACHE:
+        return _LAYOUT_CACHE[key]
+    import asyncio
+    import prompt_toolkit.renderer as R
+    from editor import editor
+    from prompt_toolkit.completion import WordCompleter
+    from prompt_toolkit.formatted_text import FormattedText
+
+    cfg = case["cfg"]
+    W, H, fs = case["W"], case["H"], bool(case["fs"])
+    top = 0 if fs else case.get("top", 0)
+    kw = dict(text=cfg.get("text", ""), multiline=bool(cfg.get("multiline")),
+              reserve_space_for_menu=cfg.get("menu", 2), wrap_lines=bool(cfg.get("wrap", 1)))
+    if cfg.get("completer"):
+        kw.update(completer=WordCompleter(["alpha", "alpine", "beta", "世界", "pal"]), complete_while_typing=True)
+    if cfg.get("toolbar"):
+        kw.update(bottom_toolbar=cfg["toolbar"])
+    if cfg.get("rprompt"):
+        kw.update(rprompt=cfg["rprompt"])
+    msg = cfg.get("message", "> ")
+    if isinstance(msg, list):
+        msg = FormattedText([tuple(x) for x in msg])
+    kw.update(message=msg)
+
+    captured = []
+    orig = R._output_screen_diff
+
+    def spy(app, output, screen, *a, **k):
+        captured.append(screen)
+        return orig(app, output, screen, *a, **k)
+
+    sids = {"": 0, "[transparent]": 1}
+    attrs = {}
+    ops = []
+    R._output_screen_diff = spy
+    try:
+        with editor(**kw) as ed:
+            app = ed.app
+            out = RecOutput(W, H)
+            app.output = out
+            app.full_screen = fs
+            app.renderer = Renderer(app._merged_style, out, full_screen=fs, mouse_support=app.mouse_support)
+            app._color_depth = DEPTHS[case["depth"]]
+            if not fs and cfg.get("cpr", 1):
+                app.renderer.report_absolute_cursor_row(top + 1)
+
+            def render():
+                async def go():
+                    for _ in range(3):
+                        await asyncio.sleep(0)
+                    app.render_counter += 1
+                    app.renderer.render(app, app.layout, is_done=ed.done)
+                ed._loop.run_until_complete(go())
+                scr = captured.pop()
+                del captured[:]
+                cells = []
+                for y in sorted(scr.data_buffer):
+                    row = scr.data_buffer[y]
+                    for x in sorted(row):
+                        ch = row[x]
+                        if ch.style not in sids:
+                            sids[ch.style] = len(sids)
+                        sid = sids[ch.style]
+                        if sid not in attrs:
+                            attrs[sid] = app.renderer._attrs_for_style[ch.style]
+                        cells.append([y, x, ch.char, sid])
+                zwe = [[y, x, t] for y, r in scr.zero_width_escapes.items() for x, t in r.items()]
+                cur = scr.get_cursor_position(app.layout.current_window)
+                ops.append({"op": "render", "scr": {"h": scr.height, "cur": [cur.x, cur.y],
+                                                     "show": int(bool(scr.show_cursor)), "cells": cells, "zwe": zwe},
+                            "done": int(bool(ed.done)), "raw": 1})
+
+            render()
+            for k in case["keys"]:
+                if ed.done:
+                    break
+                ed.feed(k)
+                render()
+    finally:
+        R._output_screen_diff = orig
+    styles = []
+    for sid, a in sorted(attrs.items()):
+        fl = "".join("1" if x else "0" for x in (a.bold, a.underline, a.strike, a.italic, a.blink, a.reverse,
+                                                  a.hidden))
+        styles.append([sid, a.color or "", a.bgcolor or "", fl])
+    rend = {"kind": "rend", "W": W, "H": H, "top": top, "fs": int(fs), "depth": case["depth"], "styles": styles,
+            "chain": True, "ops": ops, "from_layout": True}
+    _LAYOUT_CACHE[key] = rend
+    return rend
+
+
+def resolve(case):
+    return layout_to_rend(case) if case.get("kind") == "layout" else case
+
+
 def model_lines(case):
+    case = resolve(case)
     L = header_lines(case)
     extra: dict[str, int] = {}
     top = 0 if case["fs"] else case.get("top", 0)
@@ -775,6 +882,7 @@ def model_lines(case):
 
 
 def impl_lines(case):
+    case = resolve(case)
     extra: dict[str, int] = {}
     out = ["ok"] * len(header_lines(case))
     plan = grid_plan(case)
@@ -827,14 +935,15 @@ def expected_cells(js, case, W, H):
     tab = style_table(case)
     plain = mk_attrs(PLAIN)
 
+    by_name = {style_str(k): v for k, v in tab.items()}
+    memo = {}
+
     def sgr(style):
-        a = None
-        for k, v in tab.items():
-            if style_str(k) == style:
-                a = v
-        v = VT(1, 1)
-        v.feed(cache[a if a is not None else plain])
-        return v.sgr
+        if style not in memo:
+            v = VT(1, 1)
+            v.feed(cache[by_name.get(style, plain)])
+            memo[style] = v.sgr
+        return memo[style]
 
     rows: dict[int, dict[int, Char]] = {}
     for y, x, t, sid in js["cells"]:
@@ -957,9 +1066,13 @@ def scratch_vt(case, js, done, top):
     return vt
 
 
+SKIPS: list = []
+
+
 def oracle(case):
     if not case.get("chain", True):
         return []
+    case = resolve(case)
     W, H, fs = case["W"], case["H"], bool(case["fs"])
     top = 0 if fs else case.get("top", 0)
     vt = VT(W, H - top, top)
@@ -1014,6 +1127,11 @@ def oracle(case):
         cx0, cy0 = js.get("cur") or [0, 0]
         if js["h"] > vt.H - vt.top or not (cx0 < max(W, 1) and cy0 < max(1, js["h"])) or \
                 any(c[0] >= js["h"] for c in js["cells"]):
+            SKIPS.append((where, js["h"], vt.H - vt.top, (cx0, cy0)))
+            if case.get("from_layout") and (any(c[0] >= js["h"] for c in js["cells"]) or cx0 >= max(W, 1)):
+                # a real layout must establish these: the differ relies on them
+                v.append(_viol("layout", "screen violates WFScreen / cursor outside the terminal",
+                               f"{where}: height={js['h']} cursor={(cx0, cy0)} rows={sorted({c[0] for c in js['cells']})}"))
             return v
         shift = vt.scrolled - scrolled0
         if done:
@@ -1230,6 +1348,22 @@ def rand_resize(rng):
     return case
 
 
+def rand_layout(rng):
+    W = rng.choice([12, 16, 20, 30, 40])
+    H = rng.choice([4, 6, 8, 10])
+    fs = int(rng.random() < 0.25)
+    cfg = {"text": rng.choice(["", "", "hello", "ab\ncd", "世界 x"]), "multiline": int(rng.random() < 0.4),
+           "completer": int(rng.random() < 0.5), "menu": rng.choice([0, 1, 2, 3]),
+           "toolbar": rng.choice([None, None, "tb", "tool 世 bar"]), "rprompt": rng.choice([None, None, "<r>"]),
+           "wrap": int(rng.random() < 0.7), "cpr": int(rng.random() < 0.7),
+           "message": rng.choice(["> ", "世> ", [["bold", "p"], ["", "> "]], [["bg:ansired", " "], ["", "$ "]], ""])}
+    keys = [rng.choice(LAYOUT_KEYS) for _ in range(rng.randrange(1, 10))]
+    if rng.random() < 0.6:
+        keys.append("\x1b\r" if cfg["multiline"] and rng.random() < 0.8 else "\r")
+    return {"kind": "layout", "W": W, "H": H, "top": 0, "fs": fs, "depth": rng.choice([1, 4, 8, 24]), "cfg": cfg,
+            "keys": keys, "chain": True}
+
+
 SMALL_KINDS = [None, ("a", 0), (" ", 2)]
 
 
@@ -1245,11 +1379,16 @@ def small_screens(W, H):
     return out
 
 
-def small_cases(sizes, n):
+def small_cases(sizes, n, sample=None):
     for (W, H) in sizes:
         scr = small_screens(W, H)
         idx = 0
-        for tup in itertools.product(range(len(scr)), repeat=n):
+        if sample:
+            rng, cnt = sample
+            tuples = [tuple(rng.randrange(len(scr)) for _ in range(n)) for _ in range(cnt)]
+        else:
+            tuples = itertools.product(range(len(scr)), repeat=n)
+        for tup in tuples:
             for fs in (0, 1):
                 ops = []
                 for j, si in enumerate(tup):
@@ -1268,20 +1407,25 @@ def small_cases(sizes, n):
 def cases(tier, rng):
     if tier == "quick":
         yield from small_cases([(1, 1), (2, 1), (3, 1), (1, 2), (2, 2)], 2)
-        nrand, nfree, nres = 2500, 1200, 500
+        nrand, nfree, nres, nlay = 2500, 1200, 500, 120
     else:
-        yield from small_cases([(1, 1), (2, 1), (3, 1), (1, 2), (2, 2), (3, 2)], 2)
+        yield from small_cases([(1, 1), (2, 1), (3, 1), (1, 2), (2, 2)], 2)
         yield from small_cases([(1, 1), (2, 1), (3, 1), (1, 2)], 3)
-        nrand, nfree, nres = 60000, 15000, 6000
+        yield from small_cases([(3, 2)], 2, sample=(rng, 12000))
+        nrand, nfree, nres, nlay = 60000, 15000, 6000, 2500
     for _ in range(nrand):
         yield rand_chain(rng, tier)
     for _ in range(nfree):
         yield rand_free(rng)
     for _ in range(nres):
         yield rand_resize(rng)
+    for _ in range(nlay):
+        yield rand_layout(rng)
 
 
 def nontrivial(case):
+    if case.get("kind") == "layout":
+        return len(case["keys"]) >= 2
     scr = [op["scr"] for op in case["ops"] if "scr" in op and op["scr"]["cells"]]
     return len({repr(s["cells"]) for s in scr}) >= 2
 
@@ -1295,6 +1439,9 @@ def distribution(cases_):
          "full_screen": 0, "chain": 0}
     for c in cases_:
         d["kind"][c["kind"]] = d["kind"].get(c["kind"], 0) + 1
+        if c["kind"] == "layout":
+            d["ops"]["key"] = d["ops"].get("key", 0) + len(c["keys"])
+            continue
         d["W"][str(c["W"])] = d["W"].get(str(c["W"]), 0) + 1
         d["H"][str(c["H"])] = d["H"].get(str(c["H"]), 0) + 1
         d["full_screen"] += int(bool(c["fs"]))
